@@ -294,6 +294,14 @@ class GridWeighted(Grid):
             self._weights = [float(val) for val in value]
         else:
             raise TypeError("The input should be a list, tuple or a single int, float value")
+        # Weights have changed, clear the cached weighted grid points
+        self._cache['gridptsw'][:] = []
+
+    def bumps(self, num_bumps, **kwargs):
+        """ Generates arbitrary bumps (i.e. hills) on the 2-dimensional grid. Please see :py:meth:`.Grid.bumps`. """
+        super(GridWeighted, self).bumps(num_bumps, **kwargs)
+        # Grid points have changed, clear the cached weighted grid points
+        self._cache['gridptsw'][:] = []
 
     def reset(self):
         """ Resets the grid. """
